@@ -319,6 +319,18 @@ impl Report {
         }
         let replay_dir = verif_dir().join("replay");
         let _ = std::fs::create_dir_all(&replay_dir);
+        // the artefacts of this property and tier are those of THIS run
+        if !self.replay_mode {
+            let prefix = format!("{}-{}-", self.property, self.tier.name());
+            if let Ok(rd) = std::fs::read_dir(&replay_dir) {
+                for e in rd.flatten() {
+                    let n = e.file_name().to_string_lossy().into_owned();
+                    if n.starts_with(&prefix) && n.ends_with(".json") {
+                        let _ = std::fs::remove_file(e.path());
+                    }
+                }
+            }
+        }
         let mut violation_lines = vec![];
         // group unattributed failures by (oracle, tags) so one defect gives one line, smallest case first
         let mut groups: BTreeMap<String, Vec<Failure>> = BTreeMap::new();
